@@ -813,15 +813,20 @@ static int ec_substitute(char *loc, char *cmd, char *arg, char *txt)
 		return 1;
 	for (i = beg; i < end; i++) {
 		char *ln = lbuf_get(xb, i);
+		char *ln0 = ln;
 		struct sbuf *r = NULL;
-		while (rstr_find(re, ln, LEN(offs) / 2, offs, 0) >= 0) {
+		while (rstr_find(re, ln, LEN(offs) / 2, offs,
+				ln > ln0 ? RE_NOTBOL : 0) >= 0) {
 			if (!r)
 				r = sbuf_make();
 			sbuf_mem(r, ln, offs[0]);
 			replace(r, xrep, ln, offs);
 			ln += offs[1];
-			if (offs[1] <= 0)	/* zero-length match */
-				sbuf_chr(r, (unsigned char) *ln++);
+			if (offs[1] == offs[0] && *ln && *ln != '\n') {
+				int l = uc_len(ln);	/* zero-length match */
+				sbuf_mem(r, ln, l);
+				ln += l;
+			}
 			if (!*ln || *ln == '\n' || !strchr(s, 'g'))
 				break;
 		}
